@@ -117,6 +117,24 @@ def run(ctx):
                           'bare-accept', f'{f.short} blocks in accept() on the control listener ({why}): a client that dies before connecting leaves the '
                           'server blocked forever and no other client is ever served', where=loc(f, c))
     ctx.floor('start-up receive/accept sites', n_recv, 4)
+    # ... and the constructor that runs _start() through super().__init__() closes its copy of the child end only afterwards
+    for cls, f in cands:
+        if f.name != '_start':
+            continue
+        init = cls.methods.get('__init__')
+        if init is None:
+            continue
+        gi = ctx.an.cfg(init, cls)
+        sup = [n for n in gi.nodes if n.stmt is not None and n.part == 'post' and any(last_attr(c) == '__init__' and receiver(c) == 'super()' for c in n.calls())]
+        closers = [n for n in gi.nodes if n.stmt is not None and n.part == 'eval' and any(last_attr(c) == 'close' and (receiver(c) or '').endswith('_comms.child_end') for c in n.calls())]
+        if not closers or not sup:
+            continue
+        domi = gi.dominators(edge_ok=lambda e: e.kind != 'async')
+        sid = {n.id for n in sup}
+        ok = all(domi.get(n.id, set()) & sid for n in closers)
+        ctx.check('R2', f'{init.short}: the parent closes its copy of the child end of the start-up pipe only after super().__init__() (which runs _start) has returned', ok, init.short,
+                  'child-end-closed-before-start', f'{init.short} closes the child end of the start-up pipe before the child has been started and has reported: the sentinel-guarded '
+                  'receive of _start() then takes the EOF of a child that died while starting for its identity message', where=loc(init, closers[0].stmt))
 
     # ---------------------------------------------------------------- R3 failure path of the remote constructor
     st = RW.methods['_start']
@@ -177,5 +195,14 @@ def guarded_by_wait(g, dom, f, recv_nodes, pipe, other_suffix):
                         doms.add(e.dst.id)
             # an assert <other> in ready on the else side is a belief, not a guard
         if doms and recv_nodes and all(dom.get(r.id, set()) & doms for r in recv_nodes):
+            # "the pipe end is ready" means "a message is there" only while this process still holds the other end of the pipe: once
+            # it has closed its copy, the death of the child makes the pipe end ready as well (EOF) and the receive raises EOFError
+            if pipe.endswith('.parent_end'):
+                other = pipe[:-len('.parent_end')] + '.child_end'
+                closers = [n for n in g.nodes if n.stmt is not None and n.part == 'eval' and any(last_attr(c) == 'close' and receiver(c) == other for c in n.calls())]
+                rid = {r.id for r in recv_nodes}
+                p = g.find_path(closers, lambda x: x.id in rid, edge_ok=lambda e: e.kind != 'async') if closers else None
+                if p is not None:
+                    return False, f'{other} is closed by this process before the guarded receive: a dead child makes {pipe} ready (EOF) too'
             return True, ''
     return False, 'the result of the wait is not tested for the pipe before receiving'
